@@ -195,10 +195,12 @@ pub fn gen_method(rng: &mut Rng, cfg: &DocCfg, pool: &TypePool) -> MethodDoc {
         name: ident(rng),
         args: (0..nargs).map(|_| gen_arg(rng, cfg, pool)).collect(),
         args_trailing_comma: rng.chance(1, 5),
-        code: match rng.below(8) {
-            0 => Some(format!("{}", rng.below(4))),
-            1 => Some(format!("00{}", rng.below(4))),
-            2 => Some("4294967295".into()),
+        code: match rng.below(16) {
+            0 | 1 => Some(format!("{}", rng.below(4))),
+            2 | 3 => Some(format!("00{}", rng.below(4))),
+            4 => Some("4294967295".into()),
+            // does not fit u32: reported with an Error of its own, the method stays (code absent)
+            5 => Some((*rng.pick(&["4294967296", "99999999999", "18446744073709551616"])).to_owned()),
             _ => None,
         },
     }
@@ -263,6 +265,15 @@ pub fn gen_item(rng: &mut Rng, cfg: &DocCfg, pool: &TypePool, kind: ItemKind, na
         members,
         enum_trailing_comma: rng.chance(1, 2),
     }
+}
+
+/// does some method carry a transact code that does not fit u32? (such a document is not
+/// well-formed: the grammar action reports it with an Error)
+pub fn has_overflowing_code(d: &Doc) -> bool {
+    d.item.members.iter().any(|m| match m {
+        MemberDoc::Method(m) => m.code.as_ref().map(|c| c.parse::<u32>().is_err()).unwrap_or(false),
+        _ => false,
+    })
 }
 
 pub fn gen_kind(rng: &mut Rng) -> ItemKind {
